@@ -10,6 +10,8 @@ RULE = ("TLC explores BinTree.tla from every binary tree shape with up to 6 (qui
         "link image (temporary threads and tag bits included); TLC validates every event against TraceBinTree.tla; random "
         "and degenerate shapes (chains, zig-zag, complete) up to 300 nodes likewise. A case = one (shape, procedure) run.")
 ASSUMPTIONS = ["nodes are at least 2-byte aligned (malloc)", "a read of a deallocated node is observed by ASan (nodes are poisoned and really freed)"]
+LOOSE_S = ("TraceBinTreeLoose", "TraceBinTreeLoose_small.cfg")
+LOOSE_L = ("TraceBinTreeLoose", "TraceBinTreeLoose.cfg")
 ACTIONS = ["StepIn", "StepPre", "StartPost", "StepPost", "StartList", "StepList"]
 
 
@@ -21,14 +23,14 @@ def run(run):
     account_mc(run, res, ACTIONS)
     exe = build_driver(run, "bt_drv", "bt_drv.c", ["librfn/bintree.c", "librfn/util.c"], libs=["-lpthread"])
     tr = exec_script(run, exe, [], "All %d\n" % (mx + (0 if run.thorough() else 1)), run.path("bt.ndjson"), "all-shapes", timeout=600)
-    check_trace(run, "all-shapes", "TraceBinTree", "TraceBinTree_small.cfg", tr, timeout=1700)
+    check_trace(run, "all-shapes", "TraceBinTree", "TraceBinTree_small.cfg", tr, timeout=1700, loose=LOOSE_S)
     sample_trace(run, tr, 8)
     rn, rmax = (40, 300) if run.thorough() else (6, 48)
-    tr2 = exec_script(run, exe, [], "Random %d %d %d\nDeep %d\n" % (run.seed, rn, rmax, 20000 if run.thorough() else 6000), run.path("bt-random.ndjson"), "large-shapes", timeout=600)
-    check_trace(run, "large-shapes", "TraceBinTree", "TraceBinTree.cfg", tr2, timeout=1700)
+    tr2 = exec_script(run, exe, [], "Random %d %d %d\nDeep %d\n" % (run.seed, rn, rmax, 20000), run.path("bt-random.ndjson"), "large-shapes", timeout=600)
+    check_trace(run, "large-shapes", "TraceBinTree", "TraceBinTree.cfg", tr2, timeout=1700, loose=LOOSE_L)
     # release-style build (NDEBUG, unsigned char, -O2): all shapes up to 5 nodes and a few large ones again
     exe2 = build_driver(run, "bt_drv_alt", "bt_drv.c", ["librfn/bintree.c", "librfn/util.c"], libs=["-lpthread"], extra_flags=ALT_FLAGS)
     tr3 = exec_script(run, exe2, [], "All 5\n", run.path("bt-alt.ndjson"), "release-build shapes", timeout=600)
-    check_trace(run, "release-build-shapes", "TraceBinTree", "TraceBinTree_small.cfg", tr3, timeout=1700)
-    tr4 = exec_script(run, exe2, [], "Random %d %d %d\nDeep 3000\n" % (run.seed + 5, 3, 40), run.path("bt-alt-random.ndjson"), "release-build large", timeout=600)
-    check_trace(run, "release-build-large", "TraceBinTree", "TraceBinTree.cfg", tr4, timeout=1700)
+    check_trace(run, "release-build-shapes", "TraceBinTree", "TraceBinTree_small.cfg", tr3, timeout=1700, loose=LOOSE_S)
+    tr4 = exec_script(run, exe2, [], "Random %d %d %d\nDeep 20000\n" % (run.seed + 5, 3, 40), run.path("bt-alt-random.ndjson"), "release-build large", timeout=600)
+    check_trace(run, "release-build-large", "TraceBinTree", "TraceBinTree.cfg", tr4, timeout=1700, loose=LOOSE_L)
